@@ -29,7 +29,7 @@ use serde::{Deserialize, Serialize};
 
 use super::{
     common::{self, EncKind, RunCfg},
-    rmodel::{self, Attr, Model, Names, PatKind, RollerSpec},
+    rmodel::{self, Attr, InstantCtx, Model, Names, PatKind, PreState, RollerSpec},
     ExecOpts,
 };
 use crate::{
@@ -124,7 +124,16 @@ struct Shared {
     sink: Arc<Sink>,
     trigger: TriggerSpec,
     fault_mode: bool,
-    in_roll: Mutex<Option<PreRoll>>,
+    in_roll: Mutex<Option<PreState>>,
+    append_mode: Mutex<bool>,
+    /// crash image roots (copy of the scratch tree at the crash site)
+    image: Mutex<Option<(std::path::PathBuf, Option<std::path::PathBuf>)>>,
+    /// model state captured with the crash image
+    image_state: Mutex<Option<(PreState, Vec<RecId>)>>,
+    /// byte-exact model checks are off (an archive on disk cannot be represented)
+    lenient: Mutex<bool>,
+    /// a truncate-mode (re)open is under way: the active chunk may already be gone
+    truncating: Mutex<bool>,
     /// set when a fault made the byte model unreliable; cleared by resync
     dirty: Mutex<bool>,
     c16_boundary_fires: Mutex<u64>,
@@ -132,18 +141,21 @@ struct Shared {
     next_sched: Mutex<i64>,
 }
 
-#[derive(Clone)]
-struct PreRoll {
-    active: Vec<u8>,
-    pending: Option<(RecId, Vec<u8>)>,
-    window: BTreeMap<u32, Vec<u8>>,
-}
 
 fn data_attr(fault_mode: bool) -> Attr {
     if fault_mode {
-        Attr { prop: "C08", data: "C08-I3", other_prop: "C08", other: "C08-I3" }
+        Attr { prop: "C08", data: "C08-I3", other_prop: "C08", other: "C08-I3", sig: ":after-fault" }
     } else {
-        Attr { prop: "C05", data: "C05-I3", other_prop: "C07", other: "C07-I4" }
+        Attr { prop: "C05", data: "C05-I3", other_prop: "C07", other: "C07-I4", sig: "" }
+    }
+}
+
+fn attr_for(sh: &Shared) -> Attr {
+    if sh.fault_mode {
+        let ap = *sh.append_mode.lock().unwrap();
+        Attr { prop: "C08", data: "C08-I3", other_prop: "C08", other: "C08-I3", sig: if ap { ":after-fault:append-mode" } else { ":after-fault:truncate-mode" } }
+    } else {
+        data_attr(false)
     }
 }
 
@@ -359,7 +371,7 @@ impl Roll for ProbeRoller {
         let id = CUR.with(|c| c.get());
         {
             let m = self.sh.model.lock().unwrap();
-            *self.sh.in_roll.lock().unwrap() = Some(PreRoll { active: m.active.clone(), pending: m.pending.clone(), window: m.window.clone() });
+            *self.sh.in_roll.lock().unwrap() = Some(PreState { active: m.active.clone(), pending: m.pending.clone(), window: m.window.clone() });
         }
         kernel::note("roll.begin", &format!("{:?}", id));
         kernel::point("roll.begin");
@@ -463,6 +475,12 @@ fn gen_trigger(rng: &mut Rng, profile: &str) -> TriggerSpec {
     match profile {
         "C06" => TriggerSpec::Size { limit: gen_limit(rng) },
         "C17" => TriggerSpec::OnStartUp { min_size: *rng.pick(&[0u64, 1, 1, 2, 10, 50, 200, 1024, 1025]) },
+        "C08" | "C08-obst" => match rng.weighted(&[5, 3, 1, 1]) {
+            0 => TriggerSpec::Size { limit: *rng.pick(&[0u64, 10, 40, 100, 100, 300, 1024]) },
+            1 => TriggerSpec::Script { pre: rng.chance(1, 2), fire: vec![] },
+            2 => TriggerSpec::OnStartUp { min_size: *rng.pick(&[0u64, 1, 10]) },
+            _ => TriggerSpec::Time { unit: *rng.pick(&[Unit::Second, Unit::Minute, Unit::Hour, Unit::Day]), n: *rng.pick(&[1i64, 2, 5]), modulate: rng.chance(1, 2), max_delay: 0 },
+        },
         "C16" => gen_time_trigger(rng),
         "C16-huge" => TriggerSpec::Time {
             unit: *rng.pick(&Unit::ALL),
@@ -588,10 +606,40 @@ pub fn generate(rng: &mut Rng, tier: Tier, profile: &str) -> Scn {
         }
         phases.push(Phase::Work { threads });
     }
+    // the liveness epilogue's records (tid 800) always satisfy a scripted trigger
+    for i in 0..3 {
+        fire.push(RecId { tid: 800, n: i });
+    }
     let trigger = match trigger {
         TriggerSpec::Script { pre, .. } => TriggerSpec::Script { pre, fire },
         t => t,
     };
+    let mut phases = phases;
+    let mut append = append;
+    let mut roller = roller;
+    if profile.starts_with("C08") {
+        if rng.chance(1, 3) {
+            append = false;
+        }
+        // prefer windows with something to shift
+        if let RollerSpec::Fixed { pat, base, count } = &roller {
+            if *count < 2 && rng.chance(2, 3) {
+                roller = RollerSpec::Fixed { pat: *pat, base: *base, count: rng.range(2, 4) as u32 };
+            }
+        }
+        if profile == "C08-obst" {
+            if let RollerSpec::Fixed { count, .. } = &roller {
+                if *count >= 2 {
+                    let at = rng.below(phases.len() as u64 + 1) as usize;
+                    phases.insert(at.min(phases.len().saturating_sub(1)), Phase::Obstacle { off: rng.range(1, (*count - 1) as u64) as u32, put: true });
+                    if rng.chance(1, 2) {
+                        phases.push(Phase::Obstacle { off: 0, put: false });
+                        phases.push(Phase::Work { threads: vec![vec![Op::Append { n: 0, len: 30 }, Op::Append { n: 1, len: 300 }]] });
+                    }
+                }
+            }
+        }
+    }
     Scn {
         append,
         encoder: if rng.chance(1, 2) { EncKind::Chunk { seed: rng.next_u64() } } else { EncKind::Pattern },
@@ -606,7 +654,7 @@ pub fn generate(rng: &mut Rng, tier: Tier, profile: &str) -> Scn {
         rand_script: (0..4).map(|_| rng.next_u64() >> 16).collect(),
         faults: vec![],
         crash: None,
-        liveness: false,
+        liveness: profile == "C08-obst",
         sched_seed: rng.next_u64(),
         policy: common::gen_policy(rng),
     }
@@ -777,20 +825,66 @@ fn do_append(sh: &Arc<Shared>, appender: &RollingFileAppender, id: RecId, len: u
                 _ => {}
             }
             if !dirty {
-                let at = data_attr(sh.fault_mode);
-                if m.check(&sh.names, &sh.sink, at, others > 0, &format!("after append of {}", id)) && others == 0 {
+                let at = attr_for(sh);
+                if *sh.lenient.lock().unwrap() {
+                    if others == 0 {
+                        lenient_check(sh, &m, &format!("after append of {}", id));
+                    }
+                } else if m.check(&sh.names, &sh.sink, at, others > 0, &format!("after append of {}", id)) && others == 0 {
                     m.check_stream(&sh.names, &sh.sink, at.prop, if sh.fault_mode { "C08-I3" } else { "C05-I2" }, &format!("after append of {}", id));
                 }
             }
         }
         Err(e) => {
             kernel::note("return", &format!("{} err", id));
-            if !sh.fault_mode || !(fault_here || *sh.dirty.lock().unwrap()) {
+            if !sh.fault_mode {
                 sh.sink.fail("C05", "C05-E0", "append-failed", format!("append of {} failed although nothing was injected: {:#}", id, e));
+                return;
             }
-            *sh.dirty.lock().unwrap() = true;
             sh.sink.probe("append_err_after_fault", 1);
+            // C08-I2 / I3 at the failure instant, on the live tree
+            let mut unacked: HashSet<RecId> = sh.inflight.lock().unwrap().keys().copied().collect();
+            unacked.insert(id);
+            after_fault(sh, &unacked, &format!("after the failed append of {} ({:#})", id, e));
         }
+    }
+}
+
+/// Stream-only check used when an archive on disk cannot be represented by
+/// the byte model (a torn compressed file left behind by a crash).
+fn lenient_check(sh: &Shared, m: &Model, when: &str) {
+    let tree = sh.names.snapshot();
+    let pre = PreState::default();
+    let unacked = HashSet::new();
+    let ctx = InstantCtx { names: &sh.names, roller: &m.roller, tree: &tree, pre: &pre, in_roll: false, unacked: &unacked, compress_site: true, stream: &m.stream, when };
+    rmodel::check_instant(&ctx, &sh.sink);
+}
+
+/// Validates the on-disk state right after a failed append (C08-I2/I3) and
+/// re-synchronises the byte model from it.
+fn after_fault(sh: &Arc<Shared>, unacked: &HashSet<RecId>, when: &str) {
+    let mut m = sh.model.lock().unwrap();
+    let pre_roll = sh.in_roll.lock().unwrap().take();
+    let in_roll = pre_roll.is_some();
+    let pre = pre_roll.unwrap_or_else(|| PreState { active: m.active.clone(), pending: m.pending.clone(), window: m.window.clone() });
+    let tree = sh.names.snapshot();
+    let site = kernel::current().and_then(|k| k.last_fault_site()).unwrap_or_default();
+    let ctx = InstantCtx {
+        names: &sh.names,
+        roller: &m.roller.clone(),
+        tree: &tree,
+        pre: &pre,
+        in_roll,
+        unacked,
+        compress_site: site.starts_with("compress."),
+        stream: &m.stream.clone(),
+        when,
+    };
+    if rmodel::check_instant(&ctx, &sh.sink) {
+        let exact = m.resync(&sh.names);
+        *sh.lenient.lock().unwrap() = !exact;
+        *sh.dirty.lock().unwrap() = false;
+        sh.sink.probe("resynced_after_fault", 1);
     }
 }
 
@@ -870,6 +964,11 @@ pub fn execute(scn: &Scn, opts: &ExecOpts) -> Outcome {
         trigger: scn.trigger.clone(),
         fault_mode,
         in_roll: Mutex::new(None),
+        append_mode: Mutex::new(scn.append),
+        image: Mutex::new(None),
+        image_state: Mutex::new(None),
+        lenient: Mutex::new(false),
+        truncating: Mutex::new(false),
         dirty: Mutex::new(false),
         c16_boundary_fires: Mutex::new(0),
         next_sched: Mutex::new(i64::MIN),
@@ -885,6 +984,10 @@ pub fn execute(scn: &Scn, opts: &ExecOpts) -> Outcome {
         rand_script: scn.rand_script.clone(),
         step_cap: 50_000,
     });
+    if scn.crash.is_some() {
+        let shc = sh.clone();
+        k.set_crash_cb(Box::new(move |site, n| crash_image(&shc, site, n)));
+    }
     let live = Arc::new(Mutex::new(Live { appender: None }));
     let mut overlapped = false;
     let mut stop = false;
@@ -920,9 +1023,15 @@ pub fn execute(scn: &Scn, opts: &ExecOpts) -> Outcome {
                     }
                     if !first && !*sh.dirty.lock().unwrap() {
                         // closing the appender must not change anything
-                        sh.model.lock().unwrap().check(&sh.names, &sh.sink, data_attr(sh.fault_mode), false, "after closing the appender");
+                        if !*sh.lenient.lock().unwrap() {
+                            sh.model.lock().unwrap().check(&sh.names, &sh.sink, attr_for(&sh), false, "after closing the appender");
+                        }
                     }
-                    match build_appender(&scn2, &sh, append) {
+                    *sh.append_mode.lock().unwrap() = append;
+                    *sh.truncating.lock().unwrap() = !append;
+                    let built = build_appender(&scn2, &sh, append);
+                    *sh.truncating.lock().unwrap() = false;
+                    match built {
                         Ok(a) => {
                             if !append {
                                 let mut m = sh.model.lock().unwrap();
@@ -938,8 +1047,8 @@ pub fn execute(scn: &Scn, opts: &ExecOpts) -> Outcome {
                                 }
                                 m.active.clear();
                             }
-                            if !*sh.dirty.lock().unwrap() {
-                                let at = if sh.fault_mode { data_attr(true) } else { Attr { prop: "C05", data: "C05-I4", other_prop: "C07", other: "C07-I4" } };
+                            if !*sh.dirty.lock().unwrap() && !*sh.lenient.lock().unwrap() {
+                                let at = if sh.fault_mode { attr_for(&sh) } else { Attr { prop: "C05", data: "C05-I4", other_prop: "C07", other: "C07-I4", sig: "" } };
                                 sh.model.lock().unwrap().check(&sh.names, &sh.sink, at, false, if append { "after opening in append mode" } else { "after opening in truncate mode" });
                             }
                             live.lock().unwrap().appender = Some(Arc::new(a));
@@ -947,6 +1056,18 @@ pub fn execute(scn: &Scn, opts: &ExecOpts) -> Outcome {
                         Err(e) => {
                             if !sh.fault_mode {
                                 sh.sink.fail("C05", "C05-E0", "build-failed", format!("building the appender failed although nothing was injected: {:#}", e));
+                            } else {
+                                sh.sink.probe("build_err_after_fault", 1);
+                                if !append && fs::metadata(&sh.names.active).map(|m| m.len()).unwrap_or(0) == 0 {
+                                    // truncate mode discards the active chunk at open time, whether or
+                                    // not the rest of the start-up then succeeds
+                                    let mut m = sh.model.lock().unwrap();
+                                    let ids: HashSet<RecId> = frame::whole_ids(&m.active).into_iter().collect();
+                                    m.stream.retain(|i| !ids.contains(i));
+                                    m.active.clear();
+                                }
+                                let unacked = HashSet::new();
+                                after_fault(&sh, &unacked, &format!("after the failed (re)open ({:#})", e));
                             }
                         }
                     }
@@ -1035,16 +1156,60 @@ pub fn execute(scn: &Scn, opts: &ExecOpts) -> Outcome {
     }
     // quiescent end-of-run check
     if !stop && !sink.any() && out.harness_error.is_none() && !*sh.dirty.lock().unwrap() {
-        let at = data_attr(sh.fault_mode);
+        let at = attr_for(&sh);
         let m = sh.model.lock().unwrap();
-        if m.pending.is_some() {
+        if *sh.lenient.lock().unwrap() {
+            lenient_check(&sh, &m, "at the end of the run");
+        } else if m.pending.is_some() && !sh.fault_mode {
             sink.fail("C05", "C05-I1", "pending-at-quiescence", "a record is still marked in flight although every append returned".into());
-        } else if m.check(&sh.names, &sink, at, false, "at the end of the run") {
+        } else if m.pending.is_none() && m.check(&sh.names, &sink, at, false, "at the end of the run") {
             m.check_stream(&sh.names, &sink, at.prop, if sh.fault_mode { "C08-I3" } else { "C05-I2" }, "at the end of the run");
         }
     }
-    let rolls = sh.model.lock().unwrap().rolls_ok;
+    // C08-L1: bounded liveness once faults have stopped — same appender …
+    if scn.liveness && !stop && !sink.any() && out.harness_error.is_none() && scn.crash.is_none() {
+        if !liveness_epilogue(&k, scn, &sh, &live, &sink, &mut out, "the same appender") {
+            stop = true;
+        }
+    }
     live.lock().unwrap().appender = None;
+    // … and a fresh appender over the crash image
+    let image = sh.image.lock().unwrap().clone();
+    if let (Some((img, img2)), true) = (image, scn.liveness && !stop && !sink.any() && out.harness_error.is_none()) {
+        let names2 = Names::new(&img, img2.as_deref(), &scn.roller);
+        let mut model2 = Model { roller: scn.roller.clone(), active: vec![], pending: None, window: BTreeMap::new(), others: BTreeMap::new(), stream: vec![], rolls_ok: 0 };
+        let exact = model2.resync(&names2);
+        let sh2 = Arc::new(Shared {
+            names: names2,
+            model: Mutex::new(model2),
+            inflight: Mutex::new(HashMap::new()),
+            acked: Mutex::new(HashSet::new()),
+            life: Mutex::new(Lifetime::default()),
+            sink: sink.clone(),
+            trigger: scn.trigger.clone(),
+            fault_mode: true,
+            in_roll: Mutex::new(None),
+            append_mode: Mutex::new(*sh.append_mode.lock().unwrap()),
+            image: Mutex::new(None),
+            image_state: Mutex::new(None),
+            lenient: Mutex::new(!exact),
+            truncating: Mutex::new(false),
+            dirty: Mutex::new(false),
+            c16_boundary_fires: Mutex::new(0),
+            next_sched: Mutex::new(i64::MIN),
+        });
+        let live2 = Arc::new(Mutex::new(Live { appender: None }));
+        liveness_epilogue(&k, scn, &sh2, &live2, &sink, &mut out, "a fresh appender over the crash image");
+        live2.lock().unwrap().appender = None;
+        sink.probe("crash_image_recoveries", 1);
+    }
+    if let Some((img, img2)) = sh.image.lock().unwrap().take() {
+        let _ = fs::remove_dir_all(img);
+        if let Some(i2) = img2 {
+            let _ = fs::remove_dir_all(i2);
+        }
+    }
+    let rolls = sh.model.lock().unwrap().rolls_ok;
     let (summary, now) = common::end(&k);
     let (v, probes) = sink.take();
     out.violations = v;
@@ -1064,6 +1229,131 @@ pub fn execute(scn: &Scn, opts: &ExecOpts) -> Outcome {
         let _ = fs::remove_dir_all(r2);
     }
     out
+}
+
+/// Takes the crash image at `site`: validates C08-I2/I3 on it and keeps a copy
+/// of the tree for the restarted-appender liveness check.
+fn crash_image(sh: &Arc<Shared>, site: &str, n: u32) {
+    let m = sh.model.lock().unwrap();
+    let pre_roll = sh.in_roll.lock().unwrap().clone();
+    let in_roll = pre_roll.is_some();
+    let pre = pre_roll.unwrap_or_else(|| PreState { active: m.active.clone(), pending: m.pending.clone(), window: m.window.clone() });
+    let tree = sh.names.snapshot();
+    let unacked: HashSet<RecId> = sh.inflight.lock().unwrap().keys().copied().collect();
+    let when = format!("crash image at {}#{}", site, n);
+    let mut pre = pre;
+    let mut stream = m.stream.clone();
+    if *sh.truncating.lock().unwrap() && tree.get(&sh.names.key(&sh.names.active)).map(|b| b.is_empty()).unwrap_or(true) {
+        // truncate mode: the open has already discarded the active chunk
+        let ids: HashSet<RecId> = frame::whole_ids(&pre.active).into_iter().collect();
+        stream.retain(|i| !ids.contains(i));
+        pre.active.clear();
+    }
+    let ctx = InstantCtx { names: &sh.names, roller: &m.roller, tree: &tree, pre: &pre, in_roll, unacked: &unacked, compress_site: site.starts_with("compress."), stream: &stream, when: &when };
+    if rmodel::check_instant(&ctx, &sh.sink) {
+        let img = sh.names.root.with_extension("img");
+        let _ = fs::remove_dir_all(&img);
+        let _ = fsutil::copy_tree(&sh.names.root, &img);
+        let img2 = sh.names.root2.as_ref().map(|r2| {
+            let i2 = r2.with_extension("img");
+            let _ = fs::remove_dir_all(&i2);
+            let _ = fsutil::copy_tree(r2, &i2);
+            i2
+        });
+        *sh.image.lock().unwrap() = Some((img, img2));
+        sh.sink.probe("crash_images_taken", 1);
+    }
+}
+
+/// C08-L1. Returns false if the run must stop.
+fn liveness_epilogue(k: &Arc<kernel::Kernel>, scn: &Scn, sh: &Arc<Shared>, live: &Arc<Mutex<Live>>, sink: &Arc<Sink>, out: &mut Outcome, who: &'static str) -> bool {
+    let sh = sh.clone();
+    let live = live.clone();
+    let scn2 = scn.clone();
+    let body: Box<dyn FnOnce() + Send> = Box::new(move || {
+        // the obstruction is gone
+        if let RollerSpec::Fixed { base, count, .. } = &scn2.roller {
+            for i in *base..*base + *count + 1 {
+                let p = sh.names.arch(i);
+                if p.is_dir() {
+                    let _ = fs::remove_dir_all(&p);
+                }
+            }
+        }
+        let mode = *sh.append_mode.lock().unwrap();
+        let ensure = |sh: &Arc<Shared>| -> Option<Arc<RollingFileAppender>> {
+            if let Some(a) = live.lock().unwrap().appender.clone() {
+                return Some(a);
+            }
+            match build_appender(&scn2, sh, mode) {
+                Ok(a) => {
+                    if !mode {
+                        let mut m = sh.model.lock().unwrap();
+                        let ids: HashSet<RecId> = frame::whole_ids(&m.active).into_iter().collect();
+                        m.stream.retain(|i| !ids.contains(i));
+                        m.active.clear();
+                    }
+                    let a = Arc::new(a);
+                    live.lock().unwrap().appender = Some(a.clone());
+                    Some(a)
+                }
+                Err(e) => {
+                    sh.sink.fail("C08", "C08-L1", "reopen-failed", format!("{}: cannot (re)open the appender once the obstruction is gone: {:#}", who, e));
+                    None
+                }
+            }
+        };
+        let rolls0 = sh.model.lock().unwrap().rolls_ok;
+        let zero = Mutex::new(0u32);
+        let can_fire = match &scn2.trigger {
+            TriggerSpec::OnStartUp { min_size } => mode || *min_size == 0,
+            _ => true,
+        };
+        for i in 0..3u16 {
+            if sh.sink.any() {
+                return;
+            }
+            let id = RecId { tid: 800, n: i };
+            let len = match &scn2.trigger {
+                TriggerSpec::Size { limit } => (*limit as u32).min(6000) + 1,
+                TriggerSpec::OnStartUp { min_size } => (*min_size as u32).min(6000).max(1),
+                _ => 5,
+            };
+            if let TriggerSpec::Time { .. } = &scn2.trigger {
+                let s = *sh.next_sched.lock().unwrap();
+                if s != i64::MIN {
+                    set_clock(s.saturating_add(1_000_000_000));
+                }
+            }
+            if let TriggerSpec::OnStartUp { .. } = &scn2.trigger {
+                if i > 0 {
+                    // start-up triggers fire on the first record after a start-up
+                    live.lock().unwrap().appender = None;
+                }
+            }
+            let a = match ensure(&sh) {
+                Some(a) => a,
+                None => return,
+            };
+            let before = sh.acked.lock().unwrap().len();
+            do_append(&sh, &a, id, len, &zero);
+            if sh.sink.any() {
+                return;
+            }
+            if sh.acked.lock().unwrap().len() == before {
+                sh.sink.fail("C08", "C08-L1", "append-fails-after-recovery", format!("{}: append number {} after the fault was cleared still fails", who, i + 1));
+                return;
+            }
+            if sh.model.lock().unwrap().rolls_ok > rolls0 {
+                sh.sink.probe("liveness_rotation_completed", 1);
+                return;
+            }
+        }
+        if can_fire {
+            sh.sink.fail("C08", "C08-L1", "no-rotation-after-recovery", format!("{}: three appends that satisfy the trigger were acknowledged after the fault was cleared but no rotation completed", who));
+        }
+    });
+    run_bodies(k, vec![body], sink, out, &scn.trigger)
 }
 
 fn run_bodies(k: &Arc<kernel::Kernel>, bodies: Vec<Box<dyn FnOnce() + Send>>, sink: &Arc<Sink>, out: &mut Outcome, trigger: &TriggerSpec) -> bool {
@@ -1196,6 +1486,39 @@ pub fn shrink(s: &Scn) -> Vec<Scn> {
                     }
                 }
             }
+        }
+    }
+    out
+}
+
+
+pub const FAULT_SITES: [&str; 8] = ["rotate.shift", "rotate.final", "compress.create", "compress.copy", "compress.remove", "delete.remove", "rf.open", "bg.rename"];
+pub const CRASH_ONLY_SITES: [&str; 6] = ["policy.closed", "rf.pre.processed", "rf.pre.encoded", "rf.pre.flushed", "rf.post.encoded", "rf.post.flushed"];
+
+/// C08 fault enumeration: one variant per occurrence of every rotation-step
+/// site of the fault-free execution, once with an error injected there and
+/// once with the process dying there.
+pub fn fault_variants(scn: &Scn, hits: &[(String, u32)]) -> Vec<Scn> {
+    let errnos = [libc::EACCES, libc::EIO, libc::ENOSPC, libc::EMFILE];
+    let mut out = vec![];
+    let mut k = 0usize;
+    for (site, nth) in hits {
+        let faultable = FAULT_SITES.contains(&site.as_str());
+        let crashable = faultable || CRASH_ONLY_SITES.contains(&site.as_str());
+        if faultable {
+            let mut c = scn.clone();
+            c.faults = vec![FaultSpec { site: site.clone(), nth: *nth, errno: errnos[k % errnos.len()] }];
+            c.crash = None;
+            c.liveness = true;
+            out.push(c);
+            k += 1;
+        }
+        if crashable {
+            let mut c = scn.clone();
+            c.faults = vec![];
+            c.crash = Some(CrashSpec { site: site.clone(), nth: *nth });
+            c.liveness = true;
+            out.push(c);
         }
     }
     out
